@@ -724,6 +724,12 @@ func ruleAliasHygiene(c *core.Ctx, ids [3]string, pkgs ...string) {
 // the rules do not name are transparent (PDFVERIF_NOINLINE=1 switches it off
 // for comparison).
 func setInlineKeep(prog *core.Program) {
+	// before anything looks at the syntax: renamed locals get their reviewed names back
+	vd := os.Getenv("PDFVERIF_DIR")
+	if vd == "" {
+		vd, _ = os.Getwd()
+	}
+	core.RestoreLocalNames(prog, vd)
 	if os.Getenv("PDFVERIF_NOINLINE") != "" {
 		return
 	}
@@ -1623,4 +1629,41 @@ func loopBound(g *core.Graph, h *core.V) ast.Expr {
 		}
 	}
 	return nil
+}
+
+// encArgs picks the value and the width argument of an encodeInt64 call by
+// the types of the parameters (a 64-bit value, an int width), whatever their
+// order in the signature.
+func encArgs(info *types.Info, call *ast.CallExpr) (val, width ast.Expr) {
+	if len(call.Args) != 3 {
+		return nil, nil
+	}
+	val, width = call.Args[1], call.Args[2]
+	sig, _ := info.TypeOf(call.Fun).(*types.Signature)
+	if sig == nil || sig.Params().Len() != 3 {
+		return val, width
+	}
+	vi, wi := -1, -1
+	for i := 0; i < 3; i++ {
+		b, ok := sig.Params().At(i).Type().Underlying().(*types.Basic)
+		if !ok {
+			continue
+		}
+		switch b.Kind() {
+		case types.Uint64, types.Int64:
+			if vi >= 0 {
+				return val, width
+			}
+			vi = i
+		case types.Int:
+			if wi >= 0 {
+				return val, width
+			}
+			wi = i
+		}
+	}
+	if vi >= 0 && wi >= 0 {
+		return call.Args[vi], call.Args[wi]
+	}
+	return val, width
 }
